@@ -222,6 +222,8 @@ def sp_string(r, s, feat):
         elif b in ESC and k < 0.6:
             out += b"\\" + ESC[b]
         elif k < 0.75 and b not in (40, 41, 92, 13):
+            if r.random() < 0.08 and b not in (10, 13) and not (48 <= b <= 55) and b not in b"nrtbf":
+                out += b"\\"                  # a backslash before a byte that starts no escape is ignored (7.3.4.2)
             out += bytes([b])
         else:
             # octal, 1-3 digits; fewer than three only if the next written byte cannot be a digit
